@@ -343,6 +343,54 @@ fn family<T: Family + ?Sized>(ctx: &mut Ctx, arena: &Arena, max: usize) {
     }
 }
 
+/// Tags that are larger than the type by (about) a multiple of 64 KiB / 1 MiB: the size comparison in full width.
+fn family_large<T: Family + ?Sized>(ctx: &mut Ctx, arena: &Arena) {
+    let id = u32::from(T::ID);
+    let b = T::BASE_SIZE;
+    for size in [65536 + b - 8, 65536 + b, 65536 + b + 8, 65536 + b + 1, 131072 + b, (1 << 20) + b, (1 << 20) + b + 8] {
+        let mut img = vec![0u8; round8(size)];
+        for i in 0..img.len() {
+            img[i] = marker(i, 71);
+        }
+        wr32(&mut img, 0, id);
+        wr32(&mut img, 4, size as u32);
+        let describe = || J::obj().set("seam", "cast-large").set("type", T::NAME).set("tag_size", size);
+        ctx.leaf(describe, |ctx| {
+            ctx.state_direct();
+            ctx.nontrivial();
+            arena.fill(arena::FILL_A);
+            let p = arena.place_at((arena.len() - img.len()) & !(T::ALIGN - 1), &img);
+            let slice: &[u8] = unsafe { std::slice::from_raw_parts(p, img.len()) };
+            let g = Generic::ref_from_slice(slice).unwrap();
+            let r = ctx.call("cast", || g.cast::<T>().view(p));
+            judge(ctx, T::NAME, "cast-large", size, &img, r);
+        });
+    }
+}
+
+/// A type that is 4 GiB larger than any tag: the size comparison must not be done in 32 bits. (No such object is
+/// ever created or read: only the reference and its size are looked at.)
+#[repr(C, align(8))]
+struct Huge4G {
+    header: TagHeader,
+    window: [u8; 1 << 32],
+}
+impl MaybeDynSized for Huge4G {
+    type Header = TagHeader;
+    const BASE_SIZE: usize = 8 + (1 << 32);
+    fn dst_len(_: &TagHeader) {}
+}
+impl Tag for Huge4G {
+    type IDType = TagType;
+    const ID: TagType = TagType::Custom(0x7200);
+}
+impl Family for Huge4G {
+    const NAME: &'static str = "Huge4G";
+    fn view(&self, base: *const u8) -> View {
+        View { addr_off: rel(self, base), sov: std::mem::size_of_val(self), fields: vec![(4, self.header.size.to_le_bytes().to_vec())] }
+    }
+}
+
 fn run(ctx: &mut Ctx) {
     let arena = Arena::new(2);
     let max = if ctx.quick() { 96 } else { 512 };
@@ -354,6 +402,13 @@ fn run(ctx: &mut Ctx) {
     fam!(A16Sized, A16Dst);
     ctx.bound("low_alignment", "7 sized types with alignment 4 / 2 / 1 (sizes 12, 20, 10, 9, 15, 16, 16) and 4 DSTs with alignment 4 (fixed parts 8, 12, 16; element sizes 1, 2, 4; two of them with a saturating element count), same tag sizes and seams: a type whose size is not a multiple of 8 can never have the tag's padded size, so every such cast must panic");
     fam!(L4S12, L4S20, L2S10, L1S9, L1S15, L1S16, L4S16, L4D12E1, L4D12E1Sat, L4D8E4, L4D16E2Sat);
+    ctx.bound("large_differences", "a sized type of 8 + 4 GiB bytes on every small tag size (only the reference and its size are looked at); for the sized types and three DSTs, tags of FIXED + 64 KiB (-8, +0, +1, +8), + 128 KiB, + 1 MiB (+0, +8): the cast must panic unless the sizes agree exactly");
+    fam!(Huge4G);
+    {
+        let big = Arena::new(300);
+        macro_rules! faml { ($($t:ty),*) => { $( family_large::<$t>(ctx, &big); )* } }
+        faml!(Sized0, Sized1, Sized2, Sized3, Sized4, Sized5, Sized6, D8E1, D16E8, D12E4, A16Sized, L4S12);
+    }
     // built-in kinds x all sizes
     ctx.bound("builtin", format!("all 22 built-in kinds x every tag size 8..={} (VBE: 8..=800): cast gives a view of exactly the tag's padded size or panics", max));
     for kind in 0..=21u32 {
